@@ -6,6 +6,7 @@ several JSON/CSV/TSV record classes saved alternately (they share one class-leve
 files compared with the list of records after index / slice / iteration reads; mutable record files
 edited, saved and reopened buffered and memory-mapped.
 """
+import dataclasses
 import os
 import shutil
 from dataclasses import dataclass, field
@@ -29,7 +30,9 @@ ASSUMPTIONS = [
     "save(r) may carry ONE trailing line terminator ('\\r\\n' from csv, or '\\n'); the rest must contain no line break",
     "JSON domain excludes NaN/inf, tuples, non-str dict keys and nested dataclasses (statement's list of JSON types)",
     "CSV/TSV str fields exclude '\\n' and '\\r'; field types are real classes (int, float, str), not string annotations",
-    "files are UTF-8 (PYTHONUTF8=1); strings with lone surrogates are not written to files",
+    "files are UTF-8 (PYTHONUTF8=1); CSV / TSV strings with lone surrogates are not written to files (JSON text escapes "
+    "them, so JSON records holding them are)",
+    "a record handed out by a record file belongs to the caller: changing it does not change what the file returns next",
 ]
 NCASES = {"quick": 3200, "thorough": 200000}
 NSHARDS = 16
@@ -40,7 +43,7 @@ _CLS = {}
 
 STR_PIECES = ["", "a", "abc", " ", "  lead", "trail  ", ",", ";", "\t", '"', '""', "'", "\\", "\\n", "\\\"", "a,b", 'say "hi"',
               "ž", "日本", "😀", "\u00a0", "\u200b", "\x00", "\x01", "\x7f", "x" * 50, "-", "1", "1.5", "null", "true", "{}",
-              "[1]", "=1+1", "#", "ß"]
+              "[1]", "=1+1", "#", "ß", "\ufeff", "\ufeffid"]
 JSON_ONLY_PIECES = ["\n", "\r", "\r\n", "\ud800", "\udfff", "\u2028", "\x85", "\x0b"]
 
 
@@ -158,7 +161,8 @@ def gen_str(rng, json_ok, file_safe=False):
     # a high surrogate directly followed by a low one is generated only by the dedicated case (see gen_case):
     # JSON text cannot tell that pair from the astral character it encodes (known finding of C13)
     s = _split_surrogate_pairs(s)
-    if file_safe:
+    if file_safe and not json_ok:
+        # raw lone surrogates cannot be written to a UTF-8 file (CSV / TSV); JSON text escapes them
         s = "".join(ch for ch in s if not (0xd800 <= ord(ch) <= 0xdfff))
     return s
 
@@ -299,7 +303,7 @@ def check_roundtrip(spec, res):
         raise Violation("save-raised", f"{spec[0]}{tuple(spec[1])!r}.save() -> {_short(got)}", {})
     line = got[1]
     body = strip_terminator(line)
-    if "\n" in body or "\r" in body:
+    if "\n" in body or "\r" in body or len(body.splitlines()) > 1:
         raise Violation("save-multiline", f"save() of {_short(r)} spans several lines: {_short(line)}", {})
     for form in (line, body):
         back = outcome(lambda: type(r).load(form))
@@ -379,6 +383,22 @@ def run_file_case(case, res):
             if g != ("ok", [model[i] for i in sel]):
                 fail("file-read", f"{label}: f[{sel}] -> {_short(g)}")
         res.evaluations += 3
+        if m:
+            # the caller changes a record it got from the file: the file keeps returning load(line)
+            i = rr.randrange(m)
+            g = outcome(lambda: obj[i])
+            if g[0] == "ok" and dataclasses.is_dataclass(g[1]):
+                fld = dataclasses.fields(g[1])[0].name
+                try:
+                    setattr(g[1], fld, "changed by the caller")
+                except Exception:
+                    pass
+                else:
+                    g2, g3 = outcome(lambda: obj[i]), outcome(lambda: list(obj))
+                    if g2 != ("ok", model[i]) or g3 != ("ok", model):
+                        fail("file-read-aliasing", f"{label}: after the caller changed the record it got from f[{i}], f[{i}] -> "
+                             f"{_short(g2)} and iteration -> {_short(g3)}, expected {_short(model[i])}")
+                    res.count("records_changed_by_the_caller")
         if m >= 2 and hasattr(obj, "close"):
             # a second session on the same object: the first read after reopening is the record after the last one read
             i = rr.randrange(m - 1)
@@ -446,6 +466,21 @@ def run_file_case(case, res):
             with getattr(wf, v2)(out, R) as o2:
                 read_checks(o2, model, f"{v} saved, reopened as {v2}")
             res.count("record_files_reopened")
+    if n >= 2 and len({len(x) for x in lines}) > 1 and case.get("final_nl", True):
+        # the source is replaced by a file of the same size and the same timestamps whose lines lie elsewhere (the records
+        # in another order, as written by a tool that preserves times): nothing remembered about the old file may be used
+        st = os.stat(path)
+        rot = lines[1:] + lines[:1]
+        with open(path, "w", encoding="utf-8", newline="") as f:
+            for l in rot:
+                f.write(l + "\n")
+        os.utime(path, ns=(st.st_atime_ns, st.st_mtime_ns))
+        if os.stat(path).st_size != st.st_size:
+            raise AssertionError("harness: rotated file differs in size")
+        for v in variants:
+            with getattr(wf, v)(path, R) as obj:
+                read_checks(obj, recs[1:] + recs[:1], f"{v} on a same-size same-mtime replacement of the file read before")
+        res.count("same_size_same_mtime_replacements")
     res.seen(("file", case["cls"], repr(case["records"])[:2000], repr([o[0] for o in case["ops"]])))
 
 
